@@ -489,6 +489,96 @@ func runC07(c *Ctx) {
 		}
 	}
 
+	// every supplied value reaches the converter: no filtering between the raw query and convertValue
+	if pq := c.mustFn("C07-R6", interpPkg, "ProcessQueryParams"); pq != nil {
+		rawLookup := func(v ssa.Value) bool {
+			// values, exists := rawParams[name]  -> Extract #0 of a comma-ok Lookup on the first parameter
+			ex, ok := v.(*ssa.Extract)
+			if ok {
+				v = ex.Tuple
+			}
+			lk, ok := v.(*ssa.Lookup)
+			return ok && lk.X == ssa.Value(pq.Params[0])
+		}
+		var onlyRaw func(v ssa.Value, d int) (bool, string)
+		onlyRaw = func(v ssa.Value, d int) (bool, string) {
+			if d > 10 {
+				return false, "derivation too deep"
+			}
+			if rawLookup(v) {
+				return true, ""
+			}
+			switch x := v.(type) {
+			case *ssa.Phi:
+				for _, e := range x.Edges {
+					if ok, why := onlyRaw(e, d+1); !ok {
+						return false, why
+					}
+				}
+				return true, ""
+			case *ssa.UnOp:
+				if x.Op == token.MUL {
+					if ia, ok := x.X.(*ssa.IndexAddr); ok {
+						return onlyRaw(ia.X, d+1)
+					}
+					if al, ok := x.X.(*ssa.Alloc); ok {
+						n := 0
+						for _, r := range refs(al) {
+							if st, ok := r.(*ssa.Store); ok && st.Addr == ssa.Value(al) {
+								n++
+								if ok, why := onlyRaw(st.Val, d+1); !ok {
+									return false, why
+								}
+							}
+						}
+						return n > 0, "uninitialised"
+					}
+				}
+			case *ssa.Slice:
+				return false, "a sub-slice of the supplied values"
+			case *ssa.Call:
+				return false, "the result of " + short(callName(x))
+			}
+			return false, "not the raw values of the parameter"
+		}
+		k := 0
+		eachCall(pq, func(call ssa.CallInstruction) {
+			n := callName(call)
+			if n != interpPath+".convertValue" && n != interpPath+".convertToArray" {
+				return
+			}
+			k++
+			ok, why := onlyRaw(call.Common().Args[0], 0)
+			c.ob("C07-R6", interpPkg+".ProcessQueryParams#converter-sees-the-supplied-values-"+itoa(k)+":"+short(n), call.Pos(), ok, "what is converted is "+why+", not rawParams[name] as the client sent it: values dropped or rewritten on the way (e.g. blank entries of a typed parameter) are never parsed, so `?limit=` runs the body with the default instead of yielding a 4xx")
+		})
+		if k < 2 {
+			c.undecided("C07-R6: ProcessQueryParams has %d converter calls, expected 2", k)
+		}
+	}
+	if ca := c.mustFn("C07-R6", interpPkg, "convertToArray"); ca != nil {
+		for _, lp := range naturalLoops(ca) {
+			// a way round the loop that converts nothing
+			isConv := func(x ssa.Instruction) bool { return isCallTo(x, interpPath+".convertValue") }
+			skip := false
+			for _, b := range ca.Blocks {
+				if !lp.body[b] {
+					continue
+				}
+				for _, s := range b.Succs {
+					if s == lp.head && b != lp.head {
+						// b is a latch: reachable from the header without converting?
+						q := &pathQuery{fn: ca, target: func(x ssa.Instruction) bool { return x == b.Instrs[len(b.Instrs)-1] }, stop: isConv,
+							cutEdge: func(bb *ssa.BasicBlock, si int) bool { return !lp.body[bb.Succs[si]] }}
+						if hit, _ := q.from(lp.head, 0); hit != nil {
+							skip = true
+						}
+					}
+				}
+			}
+			c.ob("C07-R6", interpPkg+".convertToArray#every-element-is-converted", ca.Pos(), !skip, "an iteration of the element loop can complete without calling convertValue: some supplied elements of a typed list parameter are skipped instead of being parsed (`?ids=1&ids=&ids=3` runs with [1,3])")
+		}
+	}
+
 	// ---- R7 limits in the validator fail closed
 	c.rule("C07-R7", "MPT: no function of the type checker (pkg/interpreter/typechecker.go) answers 'valid' (returns a nil error) directly on the edge of a comparison between an integer parameter/counter and a constant limit: a nesting/size limit that is reached must be reported as an error, never treated as conformance")
 	for _, fn := range c.srcFuncs(interpPkg) {
@@ -546,6 +636,45 @@ func runC07(c *Ctx) {
 	c.ob("C07-R7", interpPkg+"#typechecker-limits-scanned", token.NoPos, true, "")
 
 	// ---- R8 no stale checker state on the compiled path
+	c.rule("C07-R10", "GRD: whether a request has a body is never decided by an ordering test of http.Request.ContentLength against 0/1: the field is -1 for bodies of unknown length (chunked, streamed), so `ContentLength > 0` treats such a body as absent - a conforming chunked request is then rejected as missing its required fields, and a wrongly typed one runs the body unchecked. Only ==/!= 0 or a comparison with a size limit are accepted")
+	{
+		n := 0
+		for _, rel := range []string{glyphCmd, "pkg/server", interpPkg} {
+			for _, fn := range c.srcFuncs(rel) {
+				k := 0
+				eachInstr(fn, func(_ *ssa.BasicBlock, _ int, ins ssa.Instruction) {
+					bo, ok := ins.(*ssa.BinOp)
+					if !ok {
+						return
+					}
+					isCL := func(v ssa.Value) bool {
+						u, ok := stripConv(v).(*ssa.UnOp)
+						if !ok || u.Op != token.MUL {
+							return false
+						}
+						nt, f, ok := fieldOf(u.X)
+						return ok && nt != nil && nt.Obj().Pkg() != nil && nt.Obj().Pkg().Path() == "net/http" && nt.Obj().Name() == "Request" && f == "ContentLength"
+					}
+					var other ssa.Value
+					if isCL(bo.X) {
+						other = bo.Y
+					} else if isCL(bo.Y) {
+						other = bo.X
+					} else {
+						return
+					}
+					n++
+					kv, isK := constInt(other)
+					bad := isK && (kv == 0 || kv == 1) && (bo.Op == token.GTR || bo.Op == token.GEQ || bo.Op == token.LSS || bo.Op == token.LEQ)
+					k++
+					c.ob("C07-R10", fnKey(fn)+"#content-length-sign-test-"+itoa(k), bo.Pos(), !bad, "the presence of a request body is decided by an ordering test of Request.ContentLength against "+itoa(int(kv))+": -1 (unknown length: chunked or streamed body) falls on the 'no body' side, so the declared input contract is applied to an empty object instead of the body the client sent")
+				})
+			}
+		}
+		c.Sites["C07-R10#ContentLength-comparisons"] = n
+		c.ob("C07-R10", glyphCmd+"#body-presence-not-a-ContentLength-sign-test", token.NoPos, true, "")
+	}
+
 	c.rule("C07-R8", "WCS: the compiled request path (closure + cmd/glyph helpers) keeps no package-level sync.Once / Pool state and writes no package variable: the type checker used for validation is built from the current compiledTypeDefs on every request (a cached one survives `glyph dev` reloads and validates against stale nested types)")
 	compiledPathGlobalState(c, "C07-R8")
 	c.ob("C07-R8", "cmd/glyph#compiled-request-path-global-state-scanned", token.NoPos, true, "")
